@@ -72,6 +72,11 @@ class OperatorDict(Mapping):
     def filter(self, keys_out, values_out):
         """ For given keys and values, keep only symbolically non-zero elements. """
         keysvalues = tuple((k, simpv) for k, v in zip(keys_out, values_out) if (simpv := self.algebra.simp_func(v)))
+        if self.algebra.graded:
+            # Keep complete grades: only drop a grade if all of its coefficients vanish.
+            grades = {format(k, 'b').count('1') for k, v in keysvalues}
+            keysvalues = tuple((k, self.algebra.simp_func(v)) for k, v in zip(keys_out, values_out)
+                               if format(k, 'b').count('1') in grades)
         keys, values = zip(*keysvalues) if keysvalues else (tuple(), list())
         return keys, list(values)
 
